@@ -38,42 +38,56 @@ def rule_fold(ctx: Ctx):
         if isinstance(n, (ast.Subscript, ast.Attribute)) and isinstance(n.ctx, ast.Store):
             extra_state.append(norm(n)[:40])
     other_assigned = assigned - {TEXT, STEP}
-    # names assigned in the loop other than the applied function variable
-    FUNC = None
-    for s in stmts_local(loop.body):
-        if isinstance(s, ast.Assign) and norm(s.targets[0]) == TEXT and isinstance(s.value, ast.Call) and isinstance(s.value.func, ast.Name) \
-                and [norm(a) for a in s.value.args] == [TEXT]:
-            FUNC = s.value.func.id
-    ctx.ob("R-C20-1", f"{q}/applies-step-to-text", FUNC is not None, f"`{TEXT} = <step function>({TEXT})` located", node=loop, mod=m)
-    carried = sorted(other_assigned - ({FUNC} if FUNC else set()))
-    # a name both read and written in the loop, or read in the loop and defined before it (besides text / the lookup table) is state carried across steps
+    paths = enumerate_paths(loop.body)
+    # the application: TEXT = <callee>(TEXT)
+    applies = [s for s in stmts_local(loop.body) if isinstance(s, ast.Assign) and norm(s.targets[0]) == TEXT and isinstance(s.value, ast.Call)
+               and [norm(a) for a in s.value.args] == [TEXT] and not s.value.keywords]
+    ctx.ob("R-C20-1", f"{q}/applies-step-to-text", bool(applies), f"`{TEXT} = <step function>({TEXT})` located", node=loop, mod=m)
+    # loop-carried state: a name assigned in the body is carried only if some path reads it before writing it
+    carried = set()
+    for p in paths:
+        written = set()
+        for ev in p.events:
+            node = ev[1] if ev[0] in ("stmt", "cond") else None
+            if node is None:
+                continue
+            loads = {n.id for n in ast.walk(node) if isinstance(n, ast.Name) and isinstance(n.ctx, ast.Load)}
+            carried |= {n for n in loads if n in other_assigned and n not in written}
+            written |= assigned_names(node) if ev[0] == "stmt" else set()
+    carried = sorted(carried)
     reads_outside = sorted({n.id for n in walk_local(loop) if isinstance(n, ast.Name) and isinstance(n.ctx, ast.Load) and n.id in outside and n.id not in (TEXT, STEPS)})
     ctx.ob("R-C20-1", f"{q}/only-text-is-carried", not extra_state and not carried and not reads_outside,
            f"the result of a step may depend only on the text so far and the step itself: no other state is carried between iterations "
-           f"(mutations {extra_state}, extra loop variables {carried}, outer locals read {reads_outside})", node=loop, mod=m)
+           f"(mutations {extra_state}, loop variables read before they are set {carried}, outer locals read {reads_outside})", node=loop, mod=m)
     # every path through the body applies exactly one function determined by the step, or raises
-    paths = enumerate_paths(loop.body)
     okp, why, n_apply, n_raise = True, "", 0, 0
     table = None
+
+    def source_of(e: ast.AST, src) -> str:
+        nonlocal table
+        if isinstance(e, ast.Subscript) and norm(e.slice) == STEP and isinstance(e.value, ast.Name):
+            table = e.value.id
+            return "lookup"
+        if norm(e) == STEP:
+            return "callable"
+        if isinstance(e, ast.Name) and e.id in src:
+            return src[e.id]
+        return f"other:{norm(e)[:30]}"
+
     for p in paths:
         applied = 0
-        func_src = None
+        src = {}
         for ev in p.events:
-            if ev[0] == "stmt" and isinstance(ev[1], ast.Assign):
+            if ev[0] == "stmt" and isinstance(ev[1], ast.Assign) and len(ev[1].targets) == 1:
                 t = norm(ev[1].targets[0])
-                if t == FUNC:
-                    v = ev[1].value
-                    if isinstance(v, ast.Subscript) and norm(v.slice) == STEP and isinstance(v.value, ast.Name):
-                        func_src = "lookup"
-                        table = v.value.id
-                    elif norm(v) == STEP:
-                        func_src = "callable"
-                    else:
-                        func_src = f"other:{norm(v)[:30]}"
                 if t == TEXT:
                     applied += 1
-                    if not (isinstance(ev[1].value, ast.Call) and norm(ev[1].value.func) == FUNC and func_src in ("lookup", "callable")):
-                        okp, why = False, f"text updated by `{norm(ev[1])[:50]}` (function source {func_src})"
+                    v = ev[1].value
+                    kind = source_of(v.func, src) if isinstance(v, ast.Call) and [norm(a) for a in v.args] == [TEXT] and not v.keywords else "other"
+                    if kind not in ("lookup", "callable"):
+                        okp, why = False, f"text updated by `{norm(ev[1])[:50]}` (function source {kind})"
+                elif isinstance(ev[1].targets[0], ast.Name):
+                    src[t] = source_of(ev[1].value, src)
         if p.exit == "raise":
             n_raise += 1
             if applied:
